@@ -38,6 +38,9 @@ def gen(rng, tier, k):
         model, in_shape = rng.choice([kfacgen.MODELS[0], kfacgen.MODELS[2], kfacgen.MODELS[3]])
         cfg.update(model=model, in_shape=in_shape, batch=rng.choice([2, 4]), model_dtype='float64', factor_dtype='float64',
                    inv_dtype='float64', accumulation_steps=rng.choice([1, 2]), factor_decay=rng.choice([0.5, 0.75]))
+    if exact and (k // 2) % 3 == 0:
+        cfg['compute_method'] = 'inverse'; cfg['compute_eigenvalue_outer_product'] = False
+        cfg['inv_dtype'] = 'bfloat16'
     cfg['kl_clip'] = rng.choice([None, None, 0.01])
     if rng.random() < 0.5:          # refresh everything every step: stale second-order data on any rank shows within a short history
         cfg['factor_update_steps'] = 1; cfg['inv_update_steps'] = 1
@@ -106,7 +109,7 @@ def run(tier, seed, rng):
                         if fe > 1e-5:
                             probs.append(f'step {si} layer {li} rank {r}: factors differ from single-process K-FAC on the union batch (rel {fe:.2e})')
         # extracted model on the single-process factors and the averaged gradient (refresh every step only)
-        if cfg['inv_update_steps'] == 1 and cfg['factor_update_steps'] == 1 and cfg['kl_clip'] is None:
+        if cfg['inv_update_steps'] == 1 and cfg['factor_update_steps'] == 1 and cfg['kl_clip'] is None and cfg.get('inv_dtype') != 'bfloat16':
             cm = {'method': cfg['compute_method'], 'prediv': cfg['compute_eigenvalue_outer_product']}
             for si in range(len(hist)):
                 D = ref_pre[si][2]
